@@ -68,6 +68,11 @@ Good ==
   \cup {LET g2 == Wrap(VVGroup2, MFlag + VFlag, VV, u.b \o FollowerB, <<u.r, FollowerR>>)
             g1 == Wrap(VCode("grouped"), MFlag, V0, FollowerB \o g2.b, <<FollowerR, g2.r>>)
         IN [body |-> g1.b, want |-> <<g1.r>>, bad |-> FALSE, note |-> ToString(<<"d2", u.note>>)] : u \in Units}
+  \* a group of the BASE dictionary (Failed-AVP) holding a group that only the message's application defines:
+  \* members are resolved in the message's application at every depth
+  \cup {LET g2 == Wrap(VCode("grouped"), MFlag, V0, u.b \o FollowerB, <<u.r, FollowerR>>)
+            g1 == Wrap(279, MFlag, V0, FollowerB \o g2.b, <<FollowerR, g2.r>>)
+        IN [body |-> g1.b, want |-> <<g1.r>>, bad |-> FALSE, note |-> ToString(<<"db", u.note>>)] : u \in Units}
   \* last AVP's padding cut by the end of the container: accepted by Frame
   \cup {[body |-> FollowerB \o Raw(VCode("octets"), 0, V0, 8 + n, Prefix(<<1, 2, 3>>, n)),
          want |-> <<FollowerR, Rec(VCode("octets"), 0, V0, Prefix(<<1, 2, 3>>, n), <<>>)>>, bad |-> FALSE, note |-> ToString(<<"nopad", n>>)] : n \in 1..3}
@@ -86,7 +91,7 @@ Bad ==
 Init == c \in Good \cup Bad
 Next == UNCHANGED c
 
-GSet == {<<C4(VCode("grouped")), V0>>, <<C4(VGroup2), V0>>, <<C4(VVCode("grouped")), VV>>, <<C4(VVGroup2), VV>>}
+GSet == {<<C4(VCode("grouped")), V0>>, <<C4(VGroup2), V0>>, <<C4(VVCode("grouped")), VV>>, <<C4(VVGroup2), VV>>, <<C4(279), V0>>}
 
 \* R1: the reference framer finds exactly the records the body was assembled from
 FrameAgrees == LET f == Frame(c.body, GSet) IN
